@@ -17,7 +17,16 @@ CHECK = {
         "hb_at_500ms_exact", "hb_at_500ms_plus_1ns", "hb_at_500ms_minus_1ns", "hb_earlier_than_last_stamp",
         "t0_zero", "t0_epoch_ns", "events_500",
         "status_ok_seen", "status_too_low_seen", "status_too_high_seen", "status_stale_seen",
-        "status_no_data_seen"],
+        "status_no_data_seen",
+        # cross-application classes
+        "t0_logspaced_to_int64_limits", "t0_int64_max_side", "t0_int64_min_side",
+        "eps_zero", "eps_tiny", "eps_huge", "ctor_rate_and_eps_same_object",
+        "steady_rate_exactly_on_threshold", "rate_exactly_on_threshold_seen",
+        "args_named_lvalue", "args_temporary", "args_std_move", "args_freed_after_call",
+        "monitor_default_ctor_then_initialize",
+        "monitor_copy_then_source_destroyed", "monitor_move_then_source_destroyed", "monitor_copy_forked",
+        "interference_steps", "long_prefix_2p8", "long_prefix_2p16", "long_prefix_of_stamps",
+        "long_prefix_of_heartbeats", "hb_same_value_twice", "stamps_ge_257"],
     "required_oracles": [
         "monitor.rate_rel", "monitor.rate_zero_until_window_full", "monitor.timeout_flag",
         "monitor.timeout_forces_rate_zero", "monitor.early_heartbeat_changes_nothing",
@@ -25,8 +34,13 @@ CHECK = {
         "checkup_eq.stale", "checkup_gt.stale", "checkup_eq.no_data", "checkup_gt.no_data",
         "checkup_eq.message_matches_status", "checkup_gt.message_matches_status",
         "checkup_eq.early_heartbeat_changes_nothing", "checkup_gt.early_heartbeat_changes_nothing",
-        "checkup_eq.evaluate_returns_status", "checkup_gt.evaluate_returns_status"],
-    "required_counters": ["stamps", "heartbeats", "timeouts", "recoveries", "nonzero_rate_histories"],
+        "checkup_eq.evaluate_returns_status", "checkup_gt.evaluate_returns_status",
+        "checkup_eq.retained_reports_stable", "checkup_gt.retained_reports_stable",
+        "copy.rate_equals_source", "copy.rate_rel", "copy.timeout_flag", "copy.source_unaffected_by_copy",
+        "copy.unaffected_by_later_use_of_source",
+        "interference.rate_unchanged", "interference.report_eq_unchanged", "interference.report_gt_unchanged"],
+    "required_counters": ["stamps", "heartbeats", "timeouts", "recoveries", "nonzero_rate_histories",
+                          "interference_steps"],
     "rule": "case = (expected rate in [0.5,200] Hz: round values, k/2, log-uniform, uniform; tolerance 1e-3..10; name) + "
             "one history of 1..500 events fed to RateMonitoring, CheckupEqualToRate and CheckupGreaterThanRate and "
             "compared with the reference model after every event. Data periods 1 us..10 s in modes {steady, jittered "
@@ -35,7 +49,21 @@ CHECK = {
             "small, ~1.7e18 ns (epoch), negative; heartbeats {none, periodic timer in chronological order, adversarial: "
             "last stamp + 0.5 s -1/0/+1 ns, earlier, later up to 20 s, before the last stamp, equal to it, far future, "
             "before the first stamp incl. > 0.5 s after time zero, mixed}; history lengths concentrated on <= W+3, "
-            "W+1..2W+6 and up to 500. Non-trivial = the history contains a timeout followed by a stamp that makes the "
+            "W+1..2W+6 and up to 500. Variants drawn independently of the history: first stamp log-spaced up to the "
+            "int64-nanosecond limits (+-9.2e18 ns minus the 8e12 ns the longest history can span; the unchanged code "
+            "is exact up to there because only stamp differences and one int64 running sum bounded by the last stamp "
+            "are formed) and at both limits; tolerance 0, 4.9e-324, 1e-300, 1e-15, 1e15, 1e300, DBL_MAX; the same "
+            "double object passed as rate and tolerance; steady periods for which the rate is exactly a threshold "
+            "(dyadic ties); every by-reference call with a named lvalue / a temporary / std::move / a heap object "
+            "overwritten and freed right after the call (constructor arguments always overwritten and freed after "
+            "construction); RateMonitoring() + initialize(rate); the monitor copy-constructed (also through "
+            "std::move) with the source destroyed, or forked: the copy is fed its own continuation against a copy of "
+            "the model, source and copy must not affect each other; first and mid-history reports bound by const "
+            "auto & and re-compared at the end; interference steps between observations (sibling objects of the same "
+            "classes incl. one with the same name, stream formatting state of cout and of string streams, the "
+            "library's report helpers) after which rate and reports must be unchanged; runs of 2^8+k (all objects) "
+            "and 2^16+k (monitor only) repetitions of one mutator (steady or alternating stamps, early heartbeats, "
+            "timeout heartbeats) before the first observation. Non-trivial = the history contains a timeout followed by a stamp that makes the "
             "rate non-zero again, or rolls the window over (>= W+2 stamps) with non-constant periods",
     "level_text": "exploration: the real rate monitor and both rate check-ups are driven through 3e3 (quick) / 1e6 "
                   "(thorough) generated event histories of up to 500 stamps and heartbeats; after every event the "
@@ -56,6 +84,12 @@ CHECK = {
         "stream formatting); messages are matched by the words 'no data received', 'timeout', 'is OK', 'too low', "
         "'too high' and by naming '<name>_rate', not by exact text",
         "heartBeatCallback is taken to report a timeout by returning false (as the unit tests pin it)",
+        "runs of 2^16+k stamps exceed the statement's 500 events; they are applied to the bare monitor only and "
+        "reported under the ordinary kinds (a sliding window has no reason to depend on the history length)",
+        "the rate check-ups hold mutexes and are neither copyable nor movable; RateMonitoring has no assignment "
+        "(atomic member), so value semantics = its copy constructor (std::move selects it too)",
+        "re-initialising a monitor that has already received stamps, changing the global C++ locale, non-increasing "
+        "data stamps and expected rates outside [0.5, 200] Hz are outside the statement and not exercised",
         "single-threaded use only (C19 covers concurrency)",
         "g++ 12 ASan+UBSan runtime; asserts live (no -DNDEBUG)"],
 }
